@@ -23,6 +23,8 @@ func init() {
 		Old: "\tdefault:\n\t\treturn nil, errors.Wrapf(parse.ErrNotSupportedExpr, \"got: %s\", e)\n\t}\n}\n\nfunc unpackVectorSelector", New: "\tdefault:\n\t\treturn nil, errors.Newf(\"unsupported expression: %s\", e)\n\t}\n}\n\nfunc unpackVectorSelector", Expect: "V2"})
 	mutant(Mutant{Rule: "R-VOCAB", Name: "operator-check-moved-to-execution", File: "execution/binary/vector.go",
 		Old: "\top, err := newOperation(operation, true)\n\tif err != nil {\n\t\treturn nil, err\n\t}\n", New: "\top, _ := newOperation(parser.ADD, true)\n", Expect: "V1"})
+	mutant(Mutant{Rule: "R-VOCAB", Name: "function-selected-by-name-prefix", File: "execution/execution.go",
+		Old: "\t\tif e.Func.Name == \"histogram_quantile\" {\n", New: "\t\tif strings.HasPrefix(e.Func.Name, \"histogram_\") {\n", Old2: "import (\n", New2: "import (\n\t\"strings\"\n", Expect: "whole name"})
 	mutant(Mutant{Rule: "R-VOCAB", Name: "fallback-ignores-one-sentinel", File: "engine/engine.go",
 		Old: "return errors.Is(err, parse.ErrNotSupportedExpr) || errors.Is(err, parse.ErrNotImplemented)", New: "return errors.Is(err, parse.ErrNotSupportedExpr)", Expect: "V6"})
 	mutant(Mutant{Rule: "R-VOCAB", Name: "counter-not-bumped-on-fallback", File: "engine/engine.go",
@@ -233,7 +235,18 @@ func errOrigin(p *core.Program, v ssa.Value, sentinels map[*ssa.Global]bool, pro
 		name := core.CalleeName(&x.Call)
 		switch name {
 		case pkgErrors + ".Wrap", pkgErrors + ".Wrapf":
-			if g := core.GlobalOf(x.Call.Args[0]); g != nil && sentinels[g] {
+			// the wrapped cause is a sentinel, or one of several sentinels chosen before (cause := ErrA; if .. { cause = ErrB })
+			all, n := true, 0
+			for c := range core.PhiClosure(x.Call.Args[0]) {
+				if _, isPhi := c.(*ssa.Phi); isPhi {
+					continue
+				}
+				n++
+				if g := core.GlobalOf(c); g == nil || !sentinels[g] {
+					all = false
+				}
+			}
+			if all && n > 0 {
 				return "sentinel"
 			}
 			return "wrap-of-non-sentinel"
@@ -265,7 +278,7 @@ func ruleVocab(p *core.Program) []core.Obligation {
 	if err != nil {
 		return []core.Obligation{core.Ob(rule, "parser.Functions", "-", "", core.Lost, err.Error())}
 	}
-	newOp := p.Func("execution", "newOperator")
+	newOp := plannerFunc(p)
 	root := p.Func("execution", "New")
 	if newOp == nil || root == nil {
 		return []core.Obligation{core.Ob(rule, "execution.New/newOperator", "-", "", core.Lost, "not found")}
@@ -331,6 +344,12 @@ func ruleVocab(p *core.Program) []core.Obligation {
 				}
 				for _, r := range core.RetResults(ret) {
 					for v := range core.PhiClosure(r) {
+						// a helper that builds the error (return nil, unknownAggregationErr(name))
+						if c, ok := v.(*ssa.Call); ok && producers[c.Call.StaticCallee()] && types.Identical(c.Type(), types.Universe.Lookup("error").Type()) {
+							producers[fn] = true
+							changed = true
+							continue
+						}
 						ex, ok := v.(*ssa.Extract)
 						if !ok {
 							continue
@@ -371,6 +390,36 @@ func ruleVocab(p *core.Program) []core.Obligation {
 	for n := range ks {
 		if _, ok := ref[n]; !ok {
 			add("V1 function "+n, p.Pos(ks[n].Pos()), "", core.Violated, "function.Funcs has a key that the pinned parser does not know")
+		}
+	}
+	// a function is selected by the whole name (==, switch, map key): a pattern over the name (strings.HasPrefix,
+	// Contains, a regular expression) also selects functions of the vocabulary that the branch does not implement
+	{
+		pattern := ""
+		for f := range tree {
+			if f == nil || f.Pkg == nil || !strings.HasPrefix(core.Rel(f.Pkg.Pkg.Path()), "execution") {
+				continue
+			}
+			core.EachInstr(f, func(_ *ssa.BasicBlock, _ int, ins ssa.Instruction) {
+				c, ok := ins.(*ssa.Call)
+				if !ok || pattern != "" {
+					return
+				}
+				name := core.CalleeName(&c.Call)
+				if !strings.HasPrefix(name, "strings.") && !strings.HasPrefix(name, "regexp.") && !strings.Contains(name, "regexp.Regexp).") {
+					return
+				}
+				for _, a := range c.Call.Args {
+					if l := core.Deref(a); l != nil && core.IsFieldOf(l, pkgParser, "Function", "Name") {
+						pattern = fmt.Sprintf("%s at %s", name, p.Pos(c.Pos()))
+					}
+				}
+			})
+		}
+		if pattern != "" {
+			add("V1 functions are selected by their whole name", "-", "", core.Violated, "plan construction matches the function name with "+pattern+": the branch also takes functions of the parser's vocabulary it was not written for (histogram_count, histogram_sum, histogram_fraction next to histogram_quantile), which are then evaluated as something else or panic instead of being rejected as not implemented")
+		} else {
+			add("V1 functions are selected by their whole name", "-", "", core.Held, "no pattern match on parser.Function.Name in the construction tree")
 		}
 	}
 	// ---- V1 aggregations
